@@ -38,7 +38,8 @@ OPTSETS = [a + b for a in ([], ["-storage"], ["-partition"]) for b in ([], ["-no
 def gather(run, rng, dist):
     quick = run.tier == "quick"
     n = 120 if quick else 700
-    texts = list(MEM_SNIPPETS) + blockgen.snippet_blocks() + blockgen.mem_boundary_blocks()
+    nest = blockgen.nested_rule_blocks()
+    texts = list(MEM_SNIPPETS) + blockgen.snippet_blocks() + blockgen.mem_boundary_blocks() + (nest[run.seed % 3::3] if quick else nest)
     cdir = os.path.join(common.VERIF, "corpus", "C02")
     for f in sorted(glob.glob(os.path.join(cdir, "*.txt"))):
         texts += [l.strip() for l in open(f) if l.strip() and not l.startswith("#")]
